@@ -461,12 +461,20 @@ def macroShape (name : Str) (args : List Ast) : Bool :=
     | _ => true
   else true
 
+/-- `has` / `coalesce` in *method* position (`o.has(..)`) are outside the fragment: the compiler does not
+    know these two macros, the name of a method is not among the identifiers `check_for_const` inspects,
+    and so an enclosing closed call is folded with the Runtime failure the compiler gets for them
+    (`dyn([[1].has(1)])` is `[<failure>]` while `[[1].has(1)]` is `[true]` — a defect of the folding rule,
+    reproduced by the model).  In function position (`has(..)`, `coalesce(..)`) they are covered. -/
+def methodOK (B : Builtins) (name : Str) : Bool :=
+  (B.func name).isSome || !(name = "has".toList || name = "coalesce".toList)
+
 /-- The shape of a postfix chain behind a value: a call occurs only directly behind a member access
     (a method call `o.f(..)`); a member access that is *not* called names neither a function nor a macro
     (the VM leaves a bound method on the stack otherwise, which is no value). -/
 def opsShape (B : Builtins) : List MOp → Bool
   | [] => true
-  | .access _ _ name :: .call _ args :: rest => macroShape name args && opsShape B rest
+  | .access _ _ name :: .call _ args :: rest => macroShape name args && methodOK B name && opsShape B rest
   | .access _ _ name :: rest => !callableName B name && opsShape B rest
   | .index _ _ :: rest => opsShape B rest
   | .call _ _ :: _ => false
